@@ -2,6 +2,7 @@
 from . import shared as S
 
 META = {
+    'claim_added': 'Also decided: Dumper.__init__ forwards the stream and every emitter option unchanged (only sort_keys is replaced) and does not inspect the sink; a source is never re-bound to a transformed copy in one branch only.',
     'level': 'other',
     'technique': 'static: sibling-site agreement - every yaml.dump/yaml.load call site of one factory compared after '
                  'normalisation (resolved Dumper class, keyword set, option expressions), factory configurations compared, '
